@@ -15,7 +15,8 @@
    declaration order) does not matter; the one-iteration obligations are discharged by unfolding, rewriting the checked
    buffer operations into their values (side conditions by lia) and case analysis on every comparison. *)
 From Coq Require Import List ZArith Lia Bool Arith.
-From V Require Import Lib.GoSem Lib.GoSemStd Proofs.GoSemFacts Gen.Codec Gen.CodecCode Model.Codec Proofs.CodecBase Proofs.CodecFormat.
+From V Require Import Lib.Enc Lib.GoSem Lib.GoSemStd Proofs.GoSemFacts Gen.Codec Gen.CodecCode Model.Codec Proofs.CodecBase Proofs.CodecFormat
+  Run.C07 Run.C07Code.
 Import ListNotations.
 Local Open Scope Z_scope.
 Arguments Z.mul : simpl never.
@@ -863,3 +864,65 @@ Proof.
           | solve [parse_shape (fun (D : list Z) (e f i : Z) => (D, f, e, i)) c b p K fuel 4%nat 2%nat [92; 120] 16 8 255 byte_emit ltac:(rewrite pfx_ok_2 by lia)] ]
   end.
 Qed.
+
+(* ================================================================== the case interpreter through the generated code *)
+Lemma all_bytes_bytes s : all_bytes s = true -> bytes s.
+Proof.
+  intros H. unfold all_bytes in H. rewrite forallb_forall in H. apply Forall_forall. intros c Hc. specialize (H c Hc).
+  apply andb_true_iff in H. destruct H as [H1 H2]. zb. unfold is_byte. lia.
+Qed.
+Lemma g_format_model k s : bytes s -> 0 <= k < 2 -> g_format k s = lift (m_format k s).
+Proof.
+  intros Hb Hk. unfold g_format, m_format, fuel_for. destruct (Z.eqb_spec k 0) as [->|Hne].
+  - apply code_OctalFormat; [exact Hb|lia].
+  - destruct (Z.eqb_spec k 1); [|lia]. apply code_HexFormat; [exact Hb|lia|lia].
+Qed.
+Lemma slice_fill out d0 : m_slice (fill out d0) 0 (zlen out) = Ret out.
+Proof.
+  unfold fill. rewrite m_slice_in by (unfold zlen; rewrite ?app_length; lia). unfold zlen. rewrite Nat2Z.id.
+  change (Z.to_nat 0) with 0%nat. cbn [skipn]. rewrite Nat.sub_0_r, firstn_app, firstn_all, Nat.sub_diag. cbn [firstn]. rewrite app_nil_r. reflexivity.
+Qed.
+Lemma g_parse_model k dl s : 0 <= k < 2 -> g_parse k dl s = lift (m_parse k dl s).
+Proof.
+  intros Hk. unfold g_parse, m_parse, fuel_for.
+  assert (E : forall o : option (list Z),
+            bind (mmap (parse_res (repeat 0 dl)) (lift o)) (fun x => let '(d, n) := x in m_slice d 0 n) = lift o).
+  { intros [out|]; [|reflexivity]. cbn [lift mmap bind]. unfold parse_res. apply slice_fill. }
+  destruct (Z.eqb_spec k 0) as [->|Hne].
+  - rewrite code_OctalParse by lia. rewrite repeat_length. apply E.
+  - destruct (Z.eqb_spec k 1); [|lia]. rewrite code_HexParse by lia. rewrite repeat_length. apply E.
+Qed.
+
+(* what the check executes as `entry 0` IS the generated code for the octal and hex operations *)
+Theorem entry_code_is_entry : forall sub args, entry_code sub args = entry sub args.
+Proof.
+  intros sub args. unfold entry_code, entry. destruct args as [|op [|variant [|dl rest]]]; try reflexivity.
+  cbv zeta. set (s := fst (get_list rest)).
+  destruct (negb (all_bytes s) || (op <? 0) || (11 <? op) || (dl <? 0)) eqn:Ebad; [reflexivity|].
+  destruct (Z.eqb_spec sub 0) as [->|Hsub]; cbn [negb]; [|reflexivity].
+  change (0 =? 0) with true. cbv iota.
+  assert (Hb : bytes s).
+  { apply all_bytes_bytes. destruct (all_bytes s); [reflexivity|discriminate Ebad]. }
+  destruct (Z.ltb_spec op 2); destruct (Z.ltb_spec op 4); try lia.
+  { rewrite g_format_model by (auto; lia). destruct (m_format op s); reflexivity. }
+  { destruct (Z.leb_spec 4 op); [lia|]. destruct (Z.leb_spec 8 op); [lia|]. reflexivity. }
+  destruct (Z.leb_spec 4 op); [|lia]. destruct (Z.ltb_spec op 6); destruct (Z.ltb_spec op 8); try lia; cbn [andb].
+  { rewrite g_parse_model by lia. destruct (m_parse (op - 4) _ s); reflexivity. }
+  { destruct (Z.leb_spec 8 op); [lia|]. reflexivity. }
+  destruct (Z.leb_spec 8 op); [|lia]. destruct (Z.ltb_spec op 10); cbn [andb]; [|reflexivity].
+  unfold g_roundtrip, m_roundtrip. rewrite g_format_model by (auto; lia).
+  destruct (m_format (op - 8) s) as [e|]; [|reflexivity]. cbn [lift bind]. rewrite g_parse_model by lia.
+  destruct (m_parse (op - 8) (length e) e); reflexivity.
+Qed.
+
+(* in-kernel anchors: the generated code computes (same cases as the anchors of Run/C07.v) *)
+Example anchor_octal_code : entry_code 0 [4; 1; 0; 9; 92;49;48;49;92;55;55;55;113] = [65;92;55;55;55;113].
+Proof. vm_compute. reflexivity. Qed.
+Example anchor_hex_short_code : entry_code 0 [5; 0; 2; 9; 92;120;52;49;92;120;52;90;113] = [65; 92].
+Proof. vm_compute. reflexivity. Qed.
+Example anchor_hex_panic_code : entry_code 0 [5; 0; 0; 4; 92;120;52;49] = [PANIC].
+Proof. vm_compute. reflexivity. Qed.
+Example anchor_hexfmt_code : entry_code 0 [1; 0; 0; 2; 65; 255] = [92;120;52;49; 92;120;70;70].
+Proof. vm_compute. reflexivity. Qed.
+Example anchor_rt_code : entry_code 0 [8; 0; 0; 3; 0; 92; 255] = [0; 92; 255].
+Proof. vm_compute. reflexivity. Qed.
